@@ -383,9 +383,12 @@ class Network(BaseModel):  # pylint: disable=too-many-public-methods
             dir_out_edges = self.graph.get_edges_from(rt_name,
                 filters=[lambda e: self.graph.edges[e]["src_dir"] is not None], with_name=True)
             non_dir_in_edges = self.graph.get_edges_to(rt_name,
-                filters=[lambda e: self.graph.edges[e]["dst_dir"] is None])
-            non_dir_out_edges = self.graph.get_edges_from(rt_name,
-                filters=[lambda e: self.graph.edges[e]["src_dir"] is None])
+                filters=[lambda e: self.graph.edges[e]["dst_dir"] is None], with_name=True)
+            # Take the undirected outgoing links in the order of their incoming counterparts,
+            # so that both directions of a connection end up on the same port index
+            non_dir_out_edges = [self.graph.get_edge_obj((edge[1], edge[0]))
+                                 for edge, _ in non_dir_in_edges]
+            non_dir_in_edges = [edge_obj for _, edge_obj in non_dir_in_edges]
             if rt_obj.degree is not None:
                 num_edges = rt_obj.degree
             else:
